@@ -1,6 +1,7 @@
 import QcelVerif.Model.Munkres
 import QcelVerif.Model.MunkresFloat
 import QcelVerif.Model.Hash
+import QcelVerif.Gen.MunkresSrc
 import QcelVerif.Lib.Proto
 /-! Line-protocol driver for C14.
 
@@ -16,6 +17,13 @@ import QcelVerif.Lib.Proto
     (i64: `B < 2^63`) / `no_overflow_uint64` (u64: `B < 2^64`) hold (then the theorem says this line equals the `T` line),
     `spread` = 1 iff those of `no_overflow_int64_spread` hold (i64 only: `4·(max − min) < 2^63`),
     `same` = 1 iff the rounded run and the exact run of the model coincide (trace, pairs, reduced matrix)
+
+* `TS|ndim|n|m|dt|e e e …`  the same line as `T`, computed by the SOURCE-DERIVED solver: `Gen/MunkresSrc.lean` (regenerated
+  from scipy_hungarian.py by harness/c14_src.py on every run) evaluated by `Model/MunkresAst.lean` with `rnd = id`, on the fuel `capFuel` (`Props/C14Src.lean: solveCapped_ok`:
+  an answer on it is the answer of `Prog.solve`; a program regenerated from a mutated source may not terminate)
+* `FS|ndim|n|m|dt|e e e …|w`  the source-derived solver IN THE WORK DTYPE `w` (rounding at every `+`/`−` the source performs on
+  `state.C`, in source order) → the part of the `F` line before `@`
+(the harness compares implementation, hand model and source-derived run three ways, state by state)
 
 `dt` ∈ f i b o; entries are `p`, `p/q`, `inf`, `-inf`, `nan` in row-major order.
 state = `C…;marked digits;rowUnc bits;colUnc bits;z0r,z0c;r.c r.c …`
@@ -113,6 +121,15 @@ def runFloat (w : String) (inp : Input) : String :=
     let b := fun (x : Bool) => if x then "1" else "0"
     showOut inp true rF ++ "@" ++ "|".intercalate [showRat M, showRat B, b inside, b spread, b (sameOut rF rE)]
 
+/-- the source-derived solver (three-way comparison) -/
+def runSrc (w : String) (inp : Input) : String :=
+  let rnd? : Option (Rat → Rat) :=
+    if w == "" then some id else if w == "f64" then some Hash.rndDouble else if w == "i64" then some wrapInt64
+    else if w == "u64" then some wrapUInt64 else none
+  match rnd? with
+  | none => "bad-op"
+  | some rnd => showOut inp true (QcelVerif.Gen.MunkresSrc.prog.solveCapped rnd inp)
+
 def parsePair? (s : String) : Option (Nat × Nat) :=
   match splitOnChar s ',' with
   | [a, b] => do let a ← parseNat? a; let b ← parseNat? b; return (a, b)
@@ -143,12 +160,20 @@ def stepC14 (line : String) : String :=
       match parseInput? nd n m dt ents with
       | some inp => runSolve (op == "T") inp
       | none => "bad-op"
+    else if op == "TS" then
+      match parseInput? nd n m dt ents with
+      | some inp => runSrc "" inp
+      | none => "bad-op"
     else if op == "K" then runCert nd n m dt ents
     else "bad-op"
   | [op, nd, n, m, dt, ents, w] =>
     if op == "F" then
       match parseInput? nd n m dt ents with
       | some inp => runFloat w inp
+      | none => "bad-op"
+    else if op == "FS" then
+      match parseInput? nd n m dt ents with
+      | some inp => if w == "" then "bad-op" else runSrc w inp
       | none => "bad-op"
     else "bad-op"
   | _ => "bad-op"
